@@ -47,6 +47,11 @@ pub struct Subject {
 }
 
 impl Subject {
+    /// Sources are the subjects that skip the retirement check and carry a
+    /// sample specification of everything they emit.
+    pub fn ins_hint_no_inputs(&self) -> bool {
+        self.no_retire_check && !self.infinite_source
+    }
     pub fn id(&self) -> String {
         format!("{}[{}]", self.block, self.variant)
     }
@@ -484,6 +489,13 @@ fn ids(inst: &Instance) -> (Vec<usize>, Vec<usize>) {
 /// Explore one subject for one property.
 pub fn explore(rep: &mut Report, sub: &Subject, cfg: &EnvCfg) {
     let prop = cfg.prop;
+    // Sources: the flush tail has to be long enough to emit everything.
+    let expect = sub
+        .spec
+        .as_ref()
+        .map(|s| s.samples.iter().flatten().map(|v| v.len()).max().unwrap_or(0))
+        .unwrap_or(0);
+    set_flush_extra(if sub.ins_hint_no_inputs() { 4 * expect } else { 0 });
     // Reference execution: everything at once, ample streams.
     let ref_start = Start {
         in_offset: 0,
@@ -641,6 +653,12 @@ pub fn replay_one(rep: &mut Report, sub: &Subject, prop: &'static str, start: &S
     } else {
         vec![Act::FeedAll(usize::MAX / 4)]
     };
+    let expect = sub
+        .spec
+        .as_ref()
+        .map(|s| s.samples.iter().flatten().map(|v| v.len()).max().unwrap_or(0))
+        .unwrap_or(0);
+    set_flush_extra(if sub.ins_hint_no_inputs() { 4 * expect } else { 0 });
     let reference = execute((sub.build)(&ref_start), &one_shot, !sub.infinite_source);
     let inst = (sub.build)(start);
     let (ii, oo) = ids(&inst);
